@@ -270,6 +270,13 @@ func (vc *VC) ghostCall(st *State, name string, args []Val, sig *types.Signature
 		vc.ghostSorts[hn] = rs
 		return Val{T: rt, L: []string{vc.heapTerm(st, hn, rs)}}, nil
 	}
+	if len(args) == 2 {
+		// two keys: a row per object, indexed by the second argument
+		hs := arrSort(sBV64, arrSort(sBV64, rs))
+		vc.ghostSorts[hn] = hs
+		k1 := bvExtend(args[1].L[0], widthOf(args[1].T), 64, isSigned(args[1].T))
+		return Val{T: rt, L: []string{sel(sel(vc.heapTerm(st, hn, hs), ghostKey(args[0])), k1)}}, nil
+	}
 	hs := arrSort(sBV64, rs)
 	vc.ghostSorts[hn] = hs
 	term := sel(vc.heapTerm(st, hn, hs), ghostKey(args[0]))
